@@ -16,6 +16,11 @@ NA = {
 }
 
 CLAIMED = {
+ 'C12': dict(
+   technique='deterministic simulation: 2-3 real threads (plus the creator) serialised by a seeded scheduler that can preempt at every instrumented load, store and atomic of the handle code (custom __tsan_* runtime), random-walk / PCT / run-to-block strategies; exact heap-lifetime table (poisoned quarantine) as use-after-free / double-free / leak monitor; reference-count and conservation oracles; ddmin-shrunk replay files',
+   text='Seeded search over interleavings of threads that copy, assign, drop (and clone, read) their own handles to one shared Array, Map, Dic, HashMap, HashDic, Shared<T>, SmartObject class or Socket, and of AtomicCount / Atomic<int|double|Array<int>> read-modify-write operators. Non-atomic read-modify-writes are reachable schedules because preemption is per memory access. Evidence, not proof; the 16-thread 10^7-operation race-detector clause of the quantifier is replaced by access-granular controlled preemption on small operation counts.',
+   ref='DESIGN.md 2.2-2.3, 5 (C12)',
+   note='Trusted: the pthread mutex model, the heap table in sim/heap.cpp, sequential consistency (asl uses full-barrier __sync builtins), clang -O1 code shape; accesses inside uninstrumented libc (memcpy/memmove) are not preemption points.'),
  'C13': dict(
    technique='deterministic simulation: real threads serialised by a seeded scheduler (random walk / PCT / run-to-block) preempting at every instrumented memory access (custom __tsan_* runtime) and every pthread/sem/clock call; simulated clock with jumps; exactly-once, visibility, conservation and bounded-liveness oracles; ddmin-shrunk replay files',
    text='Seeded search over schedules (access-granular preemption) and small plans for Thread start/join (subclass and lambda), parallel_for over all (i0,i1,n) in [-3,40]^2 x [1,12] with boundary bias, parallel_invoke, ThreadGroup, Semaphore and Condition under the documented protocol, with spurious wake-ups, arbitrary wake order and wall-clock jumps. Evidence, not proof.',
